@@ -74,21 +74,22 @@ theorem UpdOf.then {s s' s'' : St} {c : Nat} {k' k'' : Conn} (h : UpdOf s c k' s
    h2.list.trans h.list, h2.jobs.trans h.jobs, h2.f1.trans h.f1, h2.f2.trans h.f2, h2.f3.trans h.f3⟩
 
 theorem FrameC.vac {k k' : Conn} (h1 : k.cl ≠ .running) (h2 : k.phase ≠ .dead)
-    (h3 : k.phase ≠ .accepting) (h4 : k.phase ≠ .none) (b1 : k'.brCreated = k.brCreated)
+    (h3 : k.phase ≠ .accepting) (h4 : k.phase ≠ .none) (h5 : k'.phase ≠ .none) (b1 : k'.brCreated = k.brCreated)
     (b2 : k'.brDispatch = k.brDispatch) (b3 : k'.brWalk = k.brWalk) : FrameC k k' :=
-  ⟨b1, b2, b3, fun h => absurd h h1, fun h _ => absurd h h2, fun h => absurd h h3, fun h => absurd h h4⟩
+  ⟨b1, b2, b3, fun h => absurd h h1, fun h _ => absurd h h2, fun h => absurd h h3, fun h => absurd h h4, fun _ => h5⟩
 
 /-- the frame facts between two states that differ, at `c`, in a way that breaks none of them
     because `c` was in no protected situation to begin with -/
 theorem Frame.of_vac {s s' : St} (c : Nat) (h1 : (s.conns c).cl ≠ .running)
     (h2 : (s.conns c).phase ≠ .dead) (h3 : (s.conns c).phase ≠ .accepting) (h4 : (s.conns c).phase ≠ .none)
+    (h5 : (s'.conns c).phase ≠ .none)
     (b1 : (s'.conns c).brCreated = (s.conns c).brCreated)
     (b2 : (s'.conns c).brDispatch = (s.conns c).brDispatch)
     (b3 : (s'.conns c).brWalk = (s.conns c).brWalk)
     (ho : ∀ i, i ≠ c → FrameC (s.conns i) (s'.conns i)) : Frame s s' := by
   intro i
   by_cases hc : i = c
-  · subst hc; exact FrameC.vac h1 h2 h3 h4 b1 b2 b3
+  · subst hc; exact FrameC.vac h1 h2 h3 h4 h5 b1 b2 b3
   · exact ho i hc
 
 end QbVerif.IpcsLife
@@ -119,17 +120,17 @@ theorem zeroPost_ok {s : St} (hi : Inv s) (c : Nat) (hph : (s.conns c).phase = .
     Inv (zeroPost s c) ∧ (∀ i, i ≠ c → (zeroPost s c).conns i = s.conns i) ∧
     ((zeroPost s c).conns c).brCreated = (s.conns c).brCreated ∧
     ((zeroPost s c).conns c).brDispatch = (s.conns c).brDispatch ∧
-    ((zeroPost s c).conns c).brWalk = (s.conns c).brWalk := by
+    ((zeroPost s c).conns c).brWalk = (s.conns c).brWalk ∧ ((zeroPost s c).conns c).phase = .dead := by
   unfold zeroPost
   by_cases hh : s.halt = true
-  · simp [hh]; exact hi
+  · simp [hh]; exact ⟨hi, hph⟩
   · simp only [hh, touch_eq s c hfr]
     simp only [Bool.false_eq_true, ↓reduceIte]
     have hs := same_svcUnref s
     have hu : UpdOf s c ({ s.conns c with freed := true }) (s.svcUnref.upd c fun k => { k with freed := true }) :=
       UpdOf.of_same hs (by have := updOf_upd s.svcUnref c (fun k => { k with freed := true }); rwa [hs.conns] at this)
     obtain ⟨hp, h1, h2, h3, h4, h5⟩ := (hi.conn c).free hph _ rfl
-    refine ⟨hu.inv hi hp (fun hx => absurd hph (hi.lst c hx)) ?_, hu.other, ?_, ?_, ?_⟩
+    refine ⟨hu.inv hi hp (fun hx => absurd hph (hi.lst c hx)) ?_, hu.other, ?_, ?_, ?_, ?_⟩
     · rw [h2]
     all_goals (rw [hu.at_c]; try assumption)
 
